@@ -5,7 +5,7 @@ C20 (round-5 extension) — proofs about the wiring model (Model/C20Wire.lean) a
 -/
 namespace KoordVerif.C20
 
-theorem none_sound : WatchPred.none.Sound := ⟨fun _ => rfl, fun _ _ _ => rfl⟩
+theorem none_sound : WatchPred.none.Sound := ⟨fun _ => rfl, fun _ _ _ => rfl, fun _ _ _ => rfl⟩
 
 /-- a sound watch predicate is invisible: the event it drops is one the handler drops itself (DeepEqual on Data). -/
 theorem wevent_sound (pr : WatchPred) (hs : pr.Sound) (d : Defaults) (parse : Ident → CM) (x : QWorld) (s : HStep) :
@@ -28,11 +28,21 @@ theorem wevent_sound (pr : WatchPred) (hs : pr.Sound) (d : Defaults) (parse : Id
         by_cases hp : pr.update old old = true
         · simp [hp]
         · simp [hp, hx, hq]
-      · simp [hs.2 old i hoi]
+      · simp [hs.2.1 old i hoi]
   | cmDelete => rfl
   | cmForeign => rfl
   | nodeAdd n ls => rfl
-  | nodeUpdate n ls => rfl
+  | nodeUpdate n ls =>
+    simp only [wevent]
+    cases hn : lookupA x.w.nodes n with
+    | none => rfl
+    | some old =>
+      by_cases hol : old = ls
+      · subst hol
+        by_cases hp : pr.nodeUpdate old old = true
+        · simp [hp]
+        · simp [hp, qevent, hn]
+      · simp [hs.2.2 old ls hol]
   | nodeDelete n => rfl
   | restart f => rfl
 
